@@ -39,7 +39,8 @@ CONSTANTS
   Denied,       \* {<<client, peerIP>>} refused by the operator's permission handler
   Toks,         \* EVEN-PORT / RESERVATION-TOKEN classes tried in Allocate: "none", "even" (EVEN-PORT), "bogus"
                 \* (a token nobody issued), or a client name (the token most recently issued to that client)
-  ResvTO        \* lifetime of a reservation: 30 s
+  ResvTO,       \* lifetime of a reservation: 30 s
+  QuotaDenied   \* users the operator's quota handler refuses a (new) allocation: 486
 
 VARIABLES alloc, perm, chan, resv, out, last
 
@@ -108,6 +109,8 @@ Allocate(c, u, lr, tx, rf, tk) ==
            THEN UNCHANGED state /\ out' = {Err(c, "Allocate", 440)}
            ELSE IF tk \in Clients /\ rf # 0
              THEN UNCHANGED state /\ out' = {Err(c, "Allocate", 400)}    \* token and family are mutually exclusive
+             ELSE IF u \in QuotaDenied
+               THEN UNCHANGED state /\ out' = {Err(c, "Allocate", 486)}  \* allocation quota reached
              ELSE IF Granted(lr) = 0 \/ (tk \in Clients /\ NextHeld(tk))
                THEN \* zero lifetime, or the reserved port is in use: 508, nothing created
                     UNCHANGED state /\ out' = {Err(c, "Allocate", 0)}
